@@ -96,6 +96,7 @@ type pathState struct {
 	raceSeen   map[string]bool
 
 	expectPanic int
+	completed   bool
 	rw          map[*value]*rwState
 	once        map[*value]*value
 	wg          map[*value]*value
